@@ -185,6 +185,16 @@ def ref_trim(files: Dict[int, RefFile], include_last: bool) -> Dict[int, Set[int
     return out
 
 
+def ambiguous_last_step(rf: RefFile) -> bool:
+    """A step name carried by several annotation rows with different spans (a second thread that repeats the
+    steps, the device-side copy Kineto writes with GPU annotations on): "the last step begins / ends" then has
+    no single meaning, so the trim is not judged for this rank (iteration numbers still are)."""
+    spans: Dict[str, Set[Tuple[Fraction, Fraction]]] = {}
+    for r in rf.steps():
+        spans.setdefault(r["name"], set()).add((r["ts"], r["ts"] + r["dur"]))
+    return any(len(v) > 1 for v in spans.values())
+
+
 def ref_load(files: Dict[int, RefFile], mode: str, include_last: bool) -> Dict[int, Dict[str, Any]]:
     """Expected frames: rank -> {"rows": {id: row}, "present": set | None, "shift": Fraction}.
     Each expected row has ts, dur, end, name, cat, pid, tid, stream, correlation, link, iteration."""
@@ -199,6 +209,9 @@ def ref_load(files: Dict[int, RefFile], mode: str, include_last: bool) -> Dict[i
         links_all = ref_links(rf.rows)  # computed in the parser over the whole file
         iters = ref_iterations(rf, links_all)
         pres = present[rank]
+        trim_unjudged = bool(full and pres is not None and ambiguous_last_step(rf))
+        if trim_unjudged:
+            pres = set(rf.rows)
         links_present = ref_links(rf.rows, pres) if pres is not None else links_all
         rows: Dict[int, Dict[str, Any]] = {}
         for i in (pres if pres is not None else rf.rows):
@@ -208,7 +221,7 @@ def ref_load(files: Dict[int, RefFile], mode: str, include_last: bool) -> Dict[i
                        "pid": r["pid"], "tid": r["tid"], "stream": r["stream"], "correlation": r["correlation"],
                        "link": links_present.get(i), "link_all": links_all.get(i), "iteration": iters.get(i),
                        "device": r["device"]}
-        out[rank] = {"rows": rows, "present": pres, "shift": shift, "frac": rf.frac}
+        out[rank] = {"rows": rows, "present": pres, "shift": shift, "frac": rf.frac, "trim_unjudged": trim_unjudged}
     return out
 
 
